@@ -43,7 +43,8 @@ Definition rgbs (r r0 ro delta : Q) : Q :=
   else if Qle_bool r ro then -(1) else 0.
 
 (* background_subtraction: mask_1 - mask_2 * sum_1 / sum_2 *)
-Definition bgsub_px (m1 m2 s1 s2 : Q) : Q := m1 - m2 * s1 / s2.
+(* s2 = 0: the ring lies entirely outside the requested array (then every m2 is 0): the disk itself *)
+Definition bgsub_px (m1 m2 s1 s2 : Q) : Q := if Qeq_bool s2 0 then m1 else m1 - m2 * s1 / s2.
 
 (* with normalize=True each bin is divided by its sum (if not close to 0) *)
 Definition normalise (l : list Q) : list Q := let s := sumQ l in map (fun v => v / s) l.
